@@ -153,12 +153,55 @@ theorem cgSeq_smul {c : 𝕜} (hc : c ≠ 0) (b x0 : E) (k : ℕ) :
 
 /-! ## the normalised run of `run_batched_cg`, one column -/
 
+/-- the divisor `do_safe_div(·, mult)` uses for a column `b`: `mult = ‖b‖`, or `ε` if `mult < ε` -/
+noncomputable def nden (ε : ℝ) (b : E) : 𝕜 :=
+  if ‖(((‖b‖ : ℝ) : 𝕜))‖ < ε then ((ε : ℝ) : 𝕜) else ((‖b‖ : ℝ) : 𝕜)
+
+omit [InnerProductSpace 𝕜 E] in
+theorem nden_of_le {ε : ℝ} {b : E} (h : ε ≤ ‖b‖) : nden (𝕜 := 𝕜) ε b = ((‖b‖ : ℝ) : 𝕜) := by
+  unfold nden
+  rw [RCLike.norm_ofReal, abs_of_nonneg (norm_nonneg b), if_neg (not_lt.mpr h)]
+
+/-- the normalised right-hand side does not change when `b` is scaled by `c > 0` (zero columns, and
+columns for which neither normalisation is guarded) -/
+theorem nden_smul {ε : ℝ} {c : ℝ} (hc : 0 < c) {b : E}
+    (hb : b = 0 ∨ (ε ≤ ‖b‖ ∧ ε ≤ c * ‖b‖)) :
+    (nden (𝕜 := 𝕜) ε ((c : 𝕜) • b))⁻¹ • ((c : 𝕜) • b) = (nden (𝕜 := 𝕜) ε b)⁻¹ • b := by
+  rcases hb with rfl | ⟨h1, h2⟩
+  · simp
+  · have hn : ‖(c : 𝕜) • b‖ = c * ‖b‖ := by
+      rw [norm_smul, RCLike.norm_ofReal, abs_of_pos hc]
+    have hε : 0 < ‖b‖ ∨ ε ≤ 0 := by
+      by_cases h : 0 < ‖b‖
+      · exact Or.inl h
+      · right
+        have : ‖b‖ = 0 := le_antisymm (not_lt.mp h) (norm_nonneg b)
+        rw [this] at h1; exact h1
+    rw [nden_of_le (by rw [hn]; exact h2), nden_of_le h1, hn]
+    by_cases hb0 : b = 0
+    · subst hb0; simp
+    · have hμ : (((‖b‖ : ℝ)) : 𝕜) ≠ 0 := by
+        have : ‖b‖ ≠ 0 := norm_ne_zero_iff.mpr hb0
+        exact_mod_cast this
+      have hc' : ((c : ℝ) : 𝕜) ≠ 0 := by exact_mod_cast hc.ne'
+      rw [smul_smul]
+      congr 1
+      push_cast
+      field_simp
+
 variable (A M) in
 /-- `x * mult` after `k` guarded steps on `(b / mult, x0 / mult)`, `mult = ‖b‖` (guarded division) -/
 noncomputable def gRun (ε : ℝ) (b x0 : E) (k : ℕ) : E :=
-  let μ : 𝕜 := ((‖b‖ : ℝ) : 𝕜)
-  let d : 𝕜 := if ‖μ‖ < ε then (ε : 𝕜) else μ
-  μ • ((gStep A M ε)^[k] (gInit A M (d⁻¹ • b) (d⁻¹ • x0))).x
+  ((‖b‖ : ℝ) : 𝕜) • ((gStep A M ε)^[k] (gInit A M ((nden (𝕜 := 𝕜) ε b)⁻¹ • b) ((nden (𝕜 := 𝕜) ε b)⁻¹ • x0))).x
+
+/-- **scaling** (`x0 = 0`): the run on `c • b`, `c > 0`, returns `c` times the run on `b` -/
+theorem gRun_smul {ε : ℝ} {c : ℝ} (hc : 0 < c) {b : E}
+    (hb : b = 0 ∨ (ε ≤ ‖b‖ ∧ ε ≤ c * ‖b‖)) (k : ℕ) :
+    gRun A M ε ((c : 𝕜) • b) 0 k = (c : 𝕜) • gRun A M ε b 0 k := by
+  unfold gRun
+  rw [nden_smul hc hb, smul_zero, smul_zero, norm_smul, RCLike.norm_ofReal, abs_of_pos hc, smul_smul]
+  push_cast
+  rfl
 
 /-- zero right-hand side ⇒ exactly zero, whatever `x0`, `k` and the guards do -/
 theorem gRun_zero (ε : ℝ) (x0 : E) (k : ℕ) : gRun A M ε (0 : E) x0 k = 0 := by
@@ -177,7 +220,7 @@ theorem gRun_eq_cgSeq {ε : ℝ} (hε : 0 < ε) {b x0 : E} (hb : ε ≤ ‖b‖)
   have hμ0 : (((‖b‖ : ℝ) : 𝕜)) ≠ 0 := by
     intro h; rw [h, norm_zero] at hμ; linarith
   unfold gRun
-  simp only [hμ, if_neg (not_lt.mpr hb)]
+  rw [nden_of_le hb]
   have h1 := gSeq_core (A := A) (M := M) k hg
   have hx : ((gStep A M ε)^[k] (gInit A M ((((‖b‖ : ℝ) : 𝕜))⁻¹ • b) ((((‖b‖ : ℝ) : 𝕜))⁻¹ • x0))).x
       = (cgSeq A M ((((‖b‖ : ℝ) : 𝕜))⁻¹ • b) ((((‖b‖ : ℝ) : 𝕜))⁻¹ • x0) k).x := by
@@ -217,5 +260,37 @@ theorem gRun_optimal (hA : A.IsSymmetric) (hM : M.IsSymmetric) (pA : PosDefOp A)
   have hr := r_ne_zero_of_guards hε hb hg
   exact ⟨x_mem_krylov k, fun y hy => cg_optimal_krylov hA hM pA pM hxs hr hy,
     fun y hy hle => cg_optimal_unique hA hM pA pM hxs hr hy hle⟩
+
+/-- once the residual of the (normalised) column is below `ε`, further steps do not change the
+returned value -/
+theorem gRun_frozen {ε : ℝ} {b x0 : E} {t k : ℕ} (htk : t ≤ k)
+    (hr : ‖((gStep A M ε)^[t] (gInit A M ((nden (𝕜 := 𝕜) ε b)⁻¹ • b)
+      ((nden (𝕜 := 𝕜) ε b)⁻¹ • x0))).r‖ < ε) :
+    gRun A M ε b x0 k = gRun A M ε b x0 t := by
+  unfold gRun
+  obtain ⟨d, rfl⟩ := Nat.exists_eq_add_of_le htk
+  rw [Nat.add_comm, Function.iterate_add_apply, (gStep_frozen_iter hr d).1]
+
+/-- while no guard is active, the recursively updated residual of the normalised column IS the true
+residual of the returned vector, in units of `‖b‖` — so the stopping test `‖r‖ ≤ tol ‖r0‖ + tol`
+is the property's `‖b - A x‖ ≤ tol (1 + ‖r0‖ / ‖b‖) ‖b‖` -/
+theorem gState_r_true (hA : A.IsSymmetric) (hM : M.IsSymmetric) (pA : PosDefOp A) (pM : PosDefOp M)
+    {ε : ℝ} (hε : 0 < ε) {b x0 : E} (hb : ε ≤ ‖b‖) {k : ℕ} (hg : GuardsOffN A M ε b x0 k) :
+    ((gStep A M ε)^[k] (gInit A M ((nden (𝕜 := 𝕜) ε b)⁻¹ • b) ((nden (𝕜 := 𝕜) ε b)⁻¹ • x0))).r =
+      (((‖b‖ : ℝ) : 𝕜))⁻¹ • (b - A (gRun A M ε b x0 k)) := by
+  have hμ0 : (((‖b‖ : ℝ) : 𝕜)) ≠ 0 := by
+    intro h
+    have : ‖b‖ = 0 := by exact_mod_cast h
+    linarith
+  rw [gRun_eq_cgSeq hε hb hg, nden_of_le hb]
+  have h1 := gSeq_core (A := A) (M := M) k hg
+  have hr : ((gStep A M ε)^[k] (gInit A M ((((‖b‖ : ℝ) : 𝕜))⁻¹ • b) ((((‖b‖ : ℝ) : 𝕜))⁻¹ • x0))).r
+      = (cgSeq A M ((((‖b‖ : ℝ) : 𝕜))⁻¹ • b) ((((‖b‖ : ℝ) : 𝕜))⁻¹ • x0) k).r := by
+    rw [← h1]; rfl
+  rw [hr, cgSeq_smul (inv_ne_zero hμ0)]
+  have hnb := noBreak_of_posDef hA hM pA pM k (r_ne_zero_of_guards hε hb hg)
+  have hinv := cgInv_all hA hM k hnb k le_rfl
+  show (((‖b‖ : ℝ) : 𝕜))⁻¹ • (cgSeq A M b x0 k).r = _
+  rw [hinv.res]
 
 end CG
